@@ -179,6 +179,8 @@ where
             });
         }
         if self.part_count < 2 || part_ids.len() < 2 {
+            // Everything goes in the only part.
+            part_ids.fill(0);
             return Ok(());
         }
         if self.part_count == 2 {
